@@ -102,10 +102,9 @@ Theorem C07_scan_nonvacuous : scan_nonvacuous gen_tables = true.
 Proof. vm_compute. reflexivity. Qed.
 Print Assumptions C07_scan_nonvacuous.
 
-(* every use of an ambient template global is gated by nunavut.embed_auditing_info (or shows nothing ambient), except
-   `T | pickle` in the Python type templates (known finding F-PY-PICKLEPATH) *)
+(* every use of an ambient template global is gated by nunavut.embed_auditing_info (or shows nothing ambient) *)
 Theorem C07_all_ambient_uses_gated :
-  forallb (fun s => site_ok gen_src_facts s || is_py_pickle s) gen_sites = true.
+  forallb (fun s => site_ok gen_src_facts s) gen_sites = true.
 Proof. vm_compute. reflexivity. Qed.
 Print Assumptions C07_all_ambient_uses_gated.
 
@@ -115,55 +114,27 @@ Theorem C07_c_cpp_html_clean :
 Proof. vm_compute. repeat split; reflexivity. Qed.
 Print Assumptions C07_c_cpp_html_clean.
 
-Theorem C07_py_clean_but_pickle : lang_clean_but_pickle gen_src_facts gen_sites LPy = true.
+(* Python: since b86b49b the Pickler of filter_pickle stores every path relative to its root namespace (the scanner accepts
+   `| pickle` only for that shape of filter_pickle; with the old shape the rows are back and this fails: a regression) *)
+Theorem C07_py_clean : lang_clean gen_src_facts gen_sites LPy = true.
 Proof. vm_compute. reflexivity. Qed.
-Print Assumptions C07_py_clean_but_pickle.
+Print Assumptions C07_py_clean.
 
 (* ---- the property ------------------------------------------------------------------------------------------------------ *)
-(* C, C++ and HTML targets, for the tree as it is now: for every template body that satisfies the named premise, every option
-   set with auditing off, every input (also inputs whose items fold onto one path) and any two environments, the output
-   directory holds the same files with the same contents. *)
+(* All four targets, for the tree as it is now: for every template body that satisfies the named premise, every option set with
+   auditing off, every input (also inputs whose items fold onto one path) and any two environments -- clock, set orders, cwd,
+   absolute location of inputs, absolute location of outputs -- the output directory holds the same files with the same contents. *)
 Theorem C07_run_env_indep :
   forall (B : Type) (render : env -> cfg -> item -> list (list str) -> B),
     render_sees_only_body_view B gen_src_facts render ->
     forall (c : cfg) (I : list tydecl) (e1 e2 : env),
-      c_embed_audit c = false -> c_lang c <> LPy ->
+      c_embed_audit c = false ->
       forall p, files B gen_src_facts gen_sites render e1 c I p = files B gen_src_facts gen_sites render e2 c I p.
 Proof.
-  intros B render Hr c I e1 e2 Ha Hl. apply run_env_indep_clean; [exact Hr | exact Ha | exact C07_src_facts_ok |].
-  destruct C07_c_cpp_html_clean as (Hc & Hcpp & Hh). destruct (c_lang c); [exact Hc | exact Hcpp | congruence | exact Hh].
+  intros B render Hr c I e1 e2 Ha. apply run_env_indep_clean; [exact Hr | exact Ha | exact C07_src_facts_ok |].
+  destruct C07_c_cpp_html_clean as (Hc & Hcpp & Hh). destruct (c_lang c); [exact Hc | exact Hcpp | exact C07_py_clean | exact Hh].
 Qed.
 Print Assumptions C07_run_env_indep.
-
-(* Python target: clock, hash order and cwd are irrelevant; the ABSOLUTE LOCATION IS NOT (known finding F-PY-PICKLEPATH, see
-   the refutation below): this theorem excludes one of the property's ambient dimensions for this target. *)
-Theorem C07_run_env_indep_py_same_location_only :
-  forall (B : Type) (render : env -> cfg -> item -> list (list str) -> B),
-    render_sees_only_body_view B gen_src_facts render ->
-    forall (c : cfg) (I : list tydecl) (e1 e2 : env),
-      c_embed_audit c = false -> c_lang c = LPy -> e_abs e1 = e_abs e2 ->
-      forall p, files B gen_src_facts gen_sites render e1 c I p = files B gen_src_facts gen_sites render e2 c I p.
-Proof.
-  intros B render Hr c I e1 e2 Ha Hl Habs.
-  apply run_env_indep_same_location; [exact Hr | exact Ha | exact C07_src_facts_ok | | exact Habs].
-  rewrite Hl. exact C07_py_clean_but_pickle.
-Qed.
-Print Assumptions C07_run_env_indep_py_same_location_only.
-
-(* ... and once `T | pickle` no longer carries the location (the table without those rows), the full statement for Python
-   follows from the same lemma: nothing else in the Python templates is ungated *)
-Theorem C07_run_env_indep_py_when_pickle_fixed :
-  forall (B : Type) (render : env -> cfg -> item -> list (list str) -> B),
-    render_sees_only_body_view B gen_src_facts render ->
-    forall (c : cfg) (I : list tydecl) (e1 e2 : env),
-      c_embed_audit c = false -> c_lang c = LPy ->
-      forall p, files B gen_src_facts (drop_pickle gen_sites) render e1 c I p
-              = files B gen_src_facts (drop_pickle gen_sites) render e2 c I p.
-Proof.
-  intros B render Hr c I e1 e2 Ha Hl. apply run_env_indep_clean; [exact Hr | exact Ha | exact C07_src_facts_ok |].
-  rewrite Hl. vm_compute. reflexivity.
-Qed.
-Print Assumptions C07_run_env_indep_py_when_pickle_fixed.
 
 (* the same set of relative paths, unconditionally (auditing on or off, any table, any facts) *)
 Theorem C07_same_paths :
@@ -192,26 +163,6 @@ Proof. exact writes_env_eq. Qed.
 Print Assumptions C07_run_env_indep_general.
 
 (* ---- what is NOT reproducible, on the faithful model ---------------------------------------------------------------------- *)
-(* F-PY-PICKLEPATH (live): the pickled pydsdl object inside every generated Python class carries the absolute source path *)
-Theorem C07_py_pickle_abs_path_refuted :
-  exists I e1 e2 p,
-    files _ facts_all_true tbl_py_pickle render0 e1 (mk_cfg LPy false) I p
-    <> files _ facts_all_true tbl_py_pickle render0 e2 (mk_cfg LPy false) I p.
-Proof. exact py_pickle_abs_path_refuted. Qed.
-Print Assumptions C07_py_pickle_abs_path_refuted.
-
-(* ... also with the regenerated tables, as long as the `| pickle` rows are there *)
-Theorem C07_py_location_matters_on_regenerated_tables :
-  forall H : existsb is_py_pickle gen_sites = true,
-  exists I e1 e2 p,
-    files _ gen_src_facts gen_sites render0 e1 (mk_cfg LPy false) I p
-    <> files _ gen_src_facts gen_sites render0 e2 (mk_cfg LPy false) I p.
-Proof.
-  exists ex_inputs, env_a, env_b, (p_A (mk_cfg LPy false)). revert H. vm_compute. intros H.
-  first [discriminate H | discriminate].
-Qed.
-Print Assumptions C07_py_location_matters_on_regenerated_tables.
-
 (* with --embed-auditing-info the files may differ: the premise is needed, and the model says so *)
 Theorem C07_audit_on_may_differ :
   exists I e1 e2 p,
@@ -243,4 +194,10 @@ Proof. vm_compute. split; reflexivity. Qed.
 Example C07_example_folding_paths :
   forall p, files _ gen_src_facts gen_sites render0 env_a (mk_cfg LC false) (d_A :: ex_inputs) p
           = files _ gen_src_facts gen_sites render0 env_c (mk_cfg LC false) (d_A :: ex_inputs) p.
-Proof. intros p. apply C07_run_env_indep; [exact (render0_pure gen_src_facts) | reflexivity | discriminate]. Qed.
+Proof. intros p. apply C07_run_env_indep; [exact (render0_pure gen_src_facts) | reflexivity]. Qed.
+
+(* the Python target is covered by the same statement now *)
+Example C07_example_python_relocated :
+  forall p, files _ gen_src_facts gen_sites render0 env_a (mk_cfg LPy false) ex_inputs p
+          = files _ gen_src_facts gen_sites render0 env_b (mk_cfg LPy false) ex_inputs p.
+Proof. intros p. apply C07_run_env_indep; [exact (render0_pure gen_src_facts) | reflexivity]. Qed.
